@@ -92,8 +92,13 @@ Triples(A) == {<<a, b, c>> : a \in A, b \in A, c \in A}
 
 ScenariosOf(t) ==
   CASE t = "tiny" -> Sc({Full, [Full EXCEPT !.roster = "serr"]}, Singles(Alphabet) \cup Probed(Core))
-    [] t = "quick" -> Sc(Cfgs, Singles(Alphabet) \cup Probed(Alphabet)) \cup Sc(CoreCfgs, Pairs(Core))
-    [] t = "thorough" -> Sc(Cfgs, Singles(Alphabet) \cup Probed(Alphabet) \cup Pairs(Core)) \cup Sc({Full}, Pairs(Alphabet))
-                         \cup Sc(CoreCfgs, Triples(Core))
+    [] t = "quick" -> Sc(Cfgs, Probed(Alphabet)) \cup Sc({Full}, Singles(Alphabet)) \cup Sc(CoreCfgs, Pairs(Core))
+    \* the thorough universe in parts (one TLC run each: computing the initial states is sequential, and a union of
+    \* large sets of scripts is expensive to normalise)
+    [] t = "thorough1" -> Sc(Cfgs, Singles(Alphabet) \cup Probed(Alphabet) \cup Pairs(Core))
+    [] t = "thorough2" -> Sc({Full}, Pairs(Alphabet))
+    [] t = "thorough3" -> Sc({Full}, Triples(Core))
+    [] t = "thorough4" -> Sc({[Full EXCEPT !.roster = "oerr"]}, Triples(Core))
+    [] t = "thorough5" -> Sc({[Full EXCEPT !.extra = FALSE, !.roster = "serr", !.block = "nil"]}, Triples(Core))
 Universe == ScenariosOf(Tier)
 =============================================================================
